@@ -129,9 +129,9 @@ def run(ctx, idx):
     ok = is_node_attr(e, "lineno")
     ctx.ob("C16.b", "%s::line" % fi.key, utils.rel, ctor.lineno, ok, "line = old line" if ok else "the converted node's line is `%s`" % K.src(e))
     # find_argument returns the value of the named argument
-    fa = fi.nested.get("find_argument")
+    fa = next((g for g in K.helper_closure(idx, fi) if g is not fi and "find_argument" in g.name), None)
     if fa is not None:
-        rets = [n for n in own_nodes(fa.node) if isinstance(n, ast.Return)]
+        rets = [n for n in own_nodes(fa.node) if isinstance(n, ast.Return) and not (n.value is None or isinstance(n.value, ast.Constant) and n.value.value is None)]
         ok = len(rets) == 1 and K.src(rets[0].value).endswith(".value.value")
         tests = [n for n in own_nodes(fa.node) if isinstance(n, ast.If)]
         ok = ok and len(tests) == 1 and isinstance(tests[0].test, ast.Compare) and isinstance(tests[0].test.ops[0], ast.Eq) and K.src(tests[0].test.left).endswith(".name")
